@@ -202,8 +202,6 @@ def verifyFunc (P : Prog) (f : Func) (lax : Bool) : Except Fault Verdict :=
   match checkStructure P f with
   | .error e => .error e
   | .ok bs =>
-    if f.code.size = 0 then .ok ⟨0, 0, [], []⟩
-    else
       match explore P f lax (4 * maxStates) [St.entry] {} [] (f.catches.map fun _ => none) with
       | .error e => .error e
       | .ok (cert, hd) =>
